@@ -7,9 +7,9 @@ WT=$1; shift
 cd "$WT" || exit 2
 echo "== build"; go build ./... || { echo BUILD-FAILS; exit 1; }
 echo "== demo with the change (must fail)"; ( "$@" "$WT" ) >/tmp/confirm.with.$$ 2>&1; RC1=$?; tail -3 /tmp/confirm.with.$$; echo "rc=$RC1"
-git stash -q
+git diff > /tmp/confirm.patch.$$; git checkout -q -- .
 echo "== demo without the change (must pass)"; ( "$@" "$WT" ) >/tmp/confirm.without.$$ 2>&1; RC2=$?; tail -3 /tmp/confirm.without.$$; echo "rc=$RC2"
-git stash pop -q
+git apply /tmp/confirm.patch.$$; rm -f /tmp/confirm.patch.$$
 echo "== full test suite with the change"; go test -vet=off -count=1 ./... 2>&1 | grep -v '^ok\|no test files' | head -20; RC3=${PIPESTATUS[0]}
 echo "SUMMARY demo_with=$RC1 demo_without=$RC2 tests=$RC3"
 rm -f /tmp/confirm.with.$$ /tmp/confirm.without.$$
